@@ -202,7 +202,7 @@ PROPS["C19"] = {
 }
 
 PROPS["C20"] = {
-    "families": ["C20"],
+    "families": ["C20", "FD"],
     "bin_build": extras.build_repo_bins,
     "nontrivial": lambda line, out: out.startswith("0:") and len(out) > 3,
     "rule": "16 (quick) / 400 (thorough) random models (3/4 with tag models); for predict: input streams of 1-5 lines (empty lines, NUL, "
@@ -212,8 +212,9 @@ PROPS["C20"] = {
             "binaries built from the working tree are run as processes; PLUS scale cases at sizes around the powers of two (15..300 characters, 255/256/257/300 tags or candidates, 4 KiB strings, 2^16 counts; cases too large for the Lean model run as oracle-only BIG cases) and special scalar values (BOM, joiners, controls, plane edges): see DESIGN.md section 11; "
             "non-trivial = distinct case with exit code 0 and output",
     "scopes": {"quick": "all 16 predict flag combinations and all 8 evaluate flag combinations on every model", "thorough": "same"},
-    "assumptions": ["clap's flag parsing, process exit codes and stdout buffering are not modelled", "floats of evaluate are compared as "
-                    "text against the same f64 expressions evaluated by the harness; the Lean model covers the integer counts"],
+    "assumptions": ["clap's flag parsing, process exit codes and stdout buffering are not modelled", "floats of evaluate: the tool's three numbers are compared as bit patterns with the "
+                    "model's exact binary64 arithmetic and as decimal text with the model's f64Display (Rust's shortest round-trip Display, itself run against the "
+                    "standard library on a few thousand bit patterns per run: family FD)"],
 }
 
 PROPS["C17"] = {
